@@ -1,8 +1,9 @@
 (* Props/C04.v — C04: V9 flowsets decode record by record exactly as the governing template says.
    Theorems only.  The specification side is Spec/Interp.v (the big-endian interpretation of a
    field's bytes in the library's type for it) and Spec/Rfc.v (header layout). *)
-From NF Require Import Base Nom Types Layout Value V9 Interp Rfc.
-From NF Require Import LayoutFacts C03Proofs DecodeFacts VarFacts CacheFacts.
+From NF Require Import Base Nom Types Layout Value V9 Interp Rfc V9Stream.
+From NF Require Import LayoutFacts C03Proofs DecodeFacts VarFacts CacheFacts StreamFacts.
+From Coq Require Import Lia.
 Open Scope list_scope.
 
 (* the packet header is read at the RFC 3954 offsets (generated layout = RFC table) *)
@@ -65,6 +66,96 @@ Proof.
   now rewrite Ho, Ht.
 Qed.
 Print Assumptions C04_data_dispatch.
+
+(* THE WHOLE PACKET.  Spec/V9Stream.v describes a packet as an exporter builds it (header, then
+   template flowsets and data flowsets in any number and order) by an ENCODER, and says what a
+   collector in state s must report (expect_stream: every template record as sent, every data
+   flowset split into its records with each value interpreted in its field's type, padding as
+   padding) and remember (learn_fs).  For every conformant packet, every collector state and any
+   bytes after the packet: the parser returns exactly that, leaves exactly those bytes, and ends
+   in exactly that state.  No bound on flowsets, templates per flowset, records or widths. *)
+Theorem C04_packet : forall puf s h l xs s' rest,
+  wf_vals v9_header_layout [] h ->
+  get_field v9_header_layout h "count" = lenN l ->
+  conformant_stream puf s l -> expect_stream s l = Some (xs, s') ->
+  parse_v9 puf s (enc_v9_packet h l ++ rest) = (Ok {| v9_header := h; v9_sets := xs |} rest, s').
+Proof. exact decode_packet. Qed.
+Print Assumptions C04_packet.
+
+(* non-vacuity of C04_packet: a packet with a two-template flowset, data for both templates
+   (one with a padding byte) meets the hypotheses from the empty cache *)
+Example C04_packet_example :
+  let t1 := {| t_id := 256; t_count := 2;
+               t_fields := [ {| tf_num := 8; tf_type := v9_from_u16 8; tf_len := 4 |};
+                             {| tf_num := 7; tf_type := v9_from_u16 7; tf_len := 2 |} ] |}%N in
+  let t2 := {| t_id := 257; t_count := 1;
+               t_fields := [ {| tf_num := 1; tf_type := v9_from_u16 1; tf_len := 3 |} ] |}%N in
+  let l := [ FTemplates [t1; t2];
+             FData 256 [ [[x0a; x00; x00; x01]; [x01; xbb]]; [[x0a; x00; x00; x02]; [x00; x35]] ] [];
+             FData 257 [ [[xff; x00; x01]] ] [x00] ]%N in
+  conformant_stream true v9_empty l
+  /\ exists xs s', expect_stream v9_empty l = Some (xs, s') /\ length xs = 3%nat.
+Proof.
+  cbn zeta.
+  assert (Hk : forall fs, all_known_or_puf true fs) by (intro fs; apply Forall_forall; intros; reflexivity).
+  assert (Hwt : forall n l, (n < 65536)%N -> (l < 65536)%N ->
+                wf_tfield {| tf_num := n; tf_type := v9_from_u16 n; tf_len := l |}) by (intros; repeat split; assumption).
+  split.
+  - cbn [conformant_stream]. split; [|split; [|split; [|exact I]]].
+    + split; [vm_compute; reflexivity|]. constructor; [|constructor; [|constructor]].
+      * split; [vm_compute; reflexivity|]. split; [reflexivity|]. split; [vm_compute; reflexivity|].
+        constructor; [apply Hwt; vm_compute; reflexivity|constructor; [apply Hwt; vm_compute; reflexivity|constructor]].
+      * split; [vm_compute; reflexivity|]. split; [reflexivity|]. split; [vm_compute; reflexivity|].
+        constructor; [apply Hwt; vm_compute; reflexivity|constructor].
+    + split; [vm_compute; reflexivity|]. split; [vm_compute; reflexivity|]. split; [vm_compute; discriminate|].
+      split; [vm_compute; discriminate|]. split; [vm_compute; reflexivity|].
+      eexists. split; [vm_compute; reflexivity|]. split; [apply Hk|]. split; [split; vm_compute; [reflexivity|discriminate]|vm_compute; reflexivity].
+    + split; [vm_compute; reflexivity|]. split; [vm_compute; reflexivity|]. split; [vm_compute; discriminate|].
+      split; [vm_compute; discriminate|]. split; [vm_compute; reflexivity|].
+      eexists. split; [vm_compute; reflexivity|]. split; [apply Hk|]. split; [split; vm_compute; [reflexivity|discriminate]|vm_compute; reflexivity].
+  - vm_compute. eexists. eexists. split; reflexivity.
+Qed.
+
+(* non-vacuity for the options side of C04_packet: an options template flowset (one scope field,
+   two option fields, two padding bytes) and an options data flowset for it, with the count in
+   the header, from the empty cache *)
+Example C04_options_example :
+  let ot := {| ot_id := 258; ot_scope_len := 4; ot_opt_len := 8;
+               ot_scope := [ {| sf_num := 1; sf_type := scope_from_u16 1; sf_len := 4 |} ];
+               ot_opts := [ {| tf_num := 34; tf_type := v9_from_u16 34; tf_len := 4 |};
+                            {| tf_num := 36; tf_type := v9_from_u16 36; tf_len := 2 |} ] |}%N in
+  let l := [ FOTemplates [ot] [x00; x00];
+             FOData 258 [[x0a; x00; x00; x01]] [[x00; x00; x00; x64]; [x00; x3c]] [x00; x00] ]%N in
+  conformant_stream true v9_empty l
+  /\ exists xs s', expect_stream v9_empty l = Some (xs, s') /\ length xs = 2%nat /\ v9_t s' = [] /\ length (v9_o s') = 1%nat.
+Proof.
+  cbv zeta. split.
+  - cbn [conformant_stream]. split; [|split; [|exact I]].
+    + split; [vm_compute; reflexivity|]. split; [|cbn; lia].
+      constructor; [|constructor]. unfold wf_otemplate. cbn [ot_id ot_scope_len ot_opt_len ot_scope ot_opts].
+      repeat split; try (vm_compute; reflexivity).
+      * constructor; [|constructor]. repeat split; vm_compute; reflexivity.
+      * constructor; [|constructor; [|constructor]]; repeat split; vm_compute; reflexivity.
+    + split; [vm_compute; reflexivity|]. split; [vm_compute; reflexivity|]. split; [vm_compute; discriminate|].
+      split; [vm_compute; discriminate|]. eexists. split; [vm_compute; reflexivity|].
+      split; [constructor; [split; vm_compute; reflexivity|constructor]|].
+      constructor; [vm_compute; reflexivity|constructor; [vm_compute; reflexivity|constructor]].
+  - vm_compute. eexists. eexists. repeat split; reflexivity.
+Qed.
+
+(* The options side at full strength is FALSE of the faithful model (known finding
+   K_C04_options_multi_record): an options data flowset may carry several records (RFC 3954
+   6.2); the decoder reports the first and leaves the others in the padding.  Witness: template
+   258 (scope System/4, option SamplingInterval/4), two records. *)
+Theorem C04_options_multi_refuted :
+  let ot := {| ot_id := 258; ot_scope_len := 4; ot_opt_len := 4;
+               ot_scope := [ {| sf_num := 1; sf_type := scope_from_u16 1; sf_len := 4 |} ];
+               ot_opts := [ {| tf_num := 34; tf_type := v9_from_u16 34; tf_len := 4 |} ] |}%N in
+  parse_odata ot [x0a; x00; x00; x01; x00; x00; x00; x64;  x00; x00; x00; x02; x00; x00; x00; xc8]
+  = Ok (V9OData [(scope_from_u16 1, [x0a; x00; x00; x01])] [(v9_from_u16 34, [x00; x00; x00; x64])]
+                [x00; x00; x00; x02; x00; x00; x00; xc8]) [].
+Proof. vm_compute. reflexivity. Qed.
+Print Assumptions C04_options_multi_refuted.
 
 (* non-vacuity: a two-record flowset with one padding byte under template (InBytes/4, L4SrcPort/2, Protocol/1) *)
 Example C04_example :
